@@ -23,6 +23,8 @@ META = {
 def queries(tier, kf):
     qs = [Query("c20-step-getline", "c20.c", "h_step", defines={"OBS": 0}, unwind=258, no_simplify=True, timeout=1800, mem_gb=10,
                 note="any of mlog / mlog_nice / mlog_clear / no-op from any count, then mlog_get_line(k) for every int k"),
+          Query("c20-dump-prefix", "c20.c", "h_step", defines={"OBS": 2, "PREFIX": 2}, unwind=4, no_simplify=True, timeout=1800, mem_gb=12,
+                note="the first two lines written by mlog_dump, for EVERY message count incl. wrapped logs and the counter fold: judged inside the fprintf stub, path cut afterwards"),
           Query("c20-base", "c20.c", "h_base", unwind=258, no_simplify=True, timeout=300)]
     if tier == "thorough":
         qs.append(Query("c20-step-dump", "c20.c", "h_step", defines={"OBS": 1, "N_LO": 0, "N_HI": 3}, unwind=7, no_simplify=True, timeout=2400, mem_gb=16,
